@@ -34,6 +34,12 @@ CHECKS = {
  "C07": dict(cat="exploration", tech="runtime monitoring: reference-rule monitor (independent lexical resolver) on Bundle.Compile accept/reject over single-violation injections at every site, plus the scope-miss hook watched during renders",
    text="Every generated valid bundle must compile and, rendered with all declared params supplied, must never look up a name nothing binds (hook in scope.lookup). For each of 14 violation kinds, every applicable site of the bundle gets that one violation injected; whenever the reference rules reject the result, the compiler must reject it too.",
    note="Trusted: ref/check.go. Readings the statement leaves open (data=all coverage, loop functions on non-loop variables) are not generated.", ref="DESIGN.md §6 C07"),
+ "C03": dict(cat="exploration", tech="runtime monitoring: reference-model monitor plus an independent safety predicate (HTML tokenizer / character-reference recogniser) over hostile values x print paths x autoescape modes x directive chains",
+   text="Hostile values (every byte, all pairs/triples of the five specials, entity- and tag-like text, long runs, non-strings) printed through 8 paths (direct, let value/content, param value/content, msg placeholder, data=all, nested content blocks) under all namespace/template autoescape combinations and chains of up to 3 directives: output must equal the reference renderer modulo reference spelling, and in an escaping context must contain no raw special outside well-formed references and directive-added <br>/<wbr>. Control group (mode off / noAutoescape / id) must show the raw value.",
+   note="Chains where truncate follows an escaper and <wbr> re-escaped by an outer print are run for totality only (documented carve-outs).", ref="DESIGN.md §6 C03"),
+ "C19": dict(cat="exploration", tech="runtime monitoring: position oracle by construction (the generator knows the line of every construct) over faults inserted at every command line, and failing prints at call depth 0-3",
+   text="23 parse-fault kinds inserted as a line of their own before every command line of generated multi-line files: the error must carry the file name, a line inside the input, the fault's line (single-line faults) or a later one (unterminated constructs), and show file:line in its text. Render errors at call depth 0-3 across files, plain or inside blocks and quoted attribute expressions, must carry the entry template's file and the line of the failing command (or its enclosing block command) there.",
+   note="'Outermost command whose execution failed' is read as the failing command or an enclosing block command in the entry template.", ref="DESIGN.md §6 C19"),
 }
 PENDING = "check not built yet (planned with runtime monitoring, see DESIGN.md §6); not claimed"
 props = [json.loads(l)['id'] for l in open('/verif/properties.jsonl')]
